@@ -102,6 +102,23 @@ func ZZ_C02_incomplete() {
 		rt.Assert(len(m.ToBytes()) == 0, "variable-message-empty")
 		lv := ast.NewListNode(other, "lv")
 		rt.Assert(len(lv.ToBytes()) == 0, "list-variable-empty")
+	case 4: // the session id taken away again ("not specified" = -1) through the producer: nothing to encode;
+		// set once more, in either order with the wait bit: the frame of the last values
+		item, _ := zzLeaf(zzU2, 1, "v")
+		m := ast.NewHSMSDataMessage("n", st, fn, wb, "H->E", item, sid, sys)
+		sys2 := rt.Bytes("sys2", 4)
+		m1 := m.SetSessionIDAndSystemBytes(-1, sys2)
+		rt.Assert(len(m1.ToBytes()) == 0, "session-id-detached-empty")
+		rt.Assert(m1.SessionID() == -1, "session-id-detached-accessor")
+		sid2 := rt.IntRange("sid2", 0, 65535)
+		m2 := m1.SetSessionIDAndSystemBytes(sid2, sys)
+		rt.Assert(rt.BytesEq(m2.ToBytes(), zzFrame(st, fn, wb, sid2, sys, item.ToBytes())), "session-id-set-again")
+		mo := ast.NewDataMessage("n", st, fn, 2, "H->E", item).SetSessionIDAndSystemBytes(-1, sys2)
+		rt.Assert(len(mo.ToBytes()) == 0 && len(mo.SetWaitBit(wb == 1).ToBytes()) == 0, "no-session-id-after-wbit-empty")
+		m3 := ast.NewDataMessage("n", st, fn, 2, "H->E", item).SetSessionIDAndSystemBytes(sid2, sys2).SetWaitBit(wb == 1)
+		rt.Assert(rt.BytesEq(m3.ToBytes(), zzFrame(st, fn, wb, sid2, sys2, item.ToBytes())), "session-then-wbit")
+		m4 := ast.NewDataMessage("n", st, fn, 2, "H->E", item).SetWaitBit(wb == 1).SetSessionIDAndSystemBytes(sid2, sys2)
+		rt.Assert(rt.BytesEq(m4.ToBytes(), zzFrame(st, fn, wb, sid2, sys2, item.ToBytes())), "wbit-then-session")
 	}
 	rt.Reach("end")
 }
